@@ -829,7 +829,25 @@ fn run_case(dir: &Path, img: &Image, case: &Case) -> Vec<String> {
     let left_out_found = |p: u16| case.uuid_locator && (!img.embedded || img.left_out_beside & (1 << (p - 1)) != 0);
     let missing = |p: u16| (img.always_missing & (1 << (p - 1)) != 0 && !left_out_found(p)) || (img.own_file(p) && case.subset & (1 << (p - 1)) != 0);
     observe_contents(&container, img, case, &order, &missing, case.instant == Instant::AfterFirstAccess, "", &mut bad);
+    let mut put_back_damaged: Option<u16> = None;
     if case.instant == Instant::HealedAfterFirstAnswers {
+        // the container check is asked while the packs are away (it covers the packs that are
+        // present) ...
+        if case.damaged == 0 {
+            match container.check() {
+                Ok(true) => {}
+                other => bad.push(format!(
+                    "while the packs are away: Container::check() is {:?} although every present pack is pristine",
+                    other.map_err(|e| dump::err_class(&e))
+                )),
+            }
+        }
+        // ... and in every other case the first pack that comes back comes back damaged (a byte
+        // of its cluster data): the same container, asked again, must not answer that all is well
+        let damage_on_return = case.damaged == 0 && case.order_seed % 2 == 0;
+        // (a pack nobody can find even when its file is there - recorded under a URL, left out of
+        // an edition - is not "back": the check is right not to look at it)
+        let findable = |p: u16| !(img.always_missing & (1 << (p - 1)) != 0 && !left_out_found(p));
         // put every pack back where the manifest says and ask again, on the same container
         for p in img.model.pack_ids() {
             if case.subset & (1 << (p - 1)) == 0 {
@@ -846,11 +864,20 @@ fn run_case(dir: &Path, img: &Image, case: &Case) -> Vec<String> {
             }
             if img.own_file(p) {
                 let bytes = &img.files.iter().find(|(n, _)| n == name).unwrap().1;
-                std::fs::write(&path, bytes).unwrap();
+                if damage_on_return && put_back_damaged.is_none() && bytes.len() > 200 && findable(p) {
+                    let mut b = bytes.clone();
+                    b[130] ^= 0x5a;
+                    std::fs::write(&path, b).unwrap();
+                    put_back_damaged = Some(p);
+                } else {
+                    std::fs::write(&path, bytes).unwrap();
+                }
             }
         }
         let nobody = |p: u16| img.always_missing & (1 << (p - 1)) != 0 && !left_out_found(p);
-        observe_contents(&container, img, case, &order, &nobody, false, "after the packs were put back: ", &mut bad);
+        if put_back_damaged.is_none() {
+            observe_contents(&container, img, case, &order, &nobody, false, "after the packs were put back: ", &mut bad);
+        }
     }
     // entries and indexes are untouched by any of this
     let mut d = Dump::default();
@@ -867,7 +894,11 @@ fn run_case(dir: &Path, img: &Image, case: &Case) -> Vec<String> {
     }
     // the container check covers the packs that are present
     let check = container.check();
+    if let (Some(p), Ok(true)) = (put_back_damaged, &check) {
+        bad.push(format!("Container::check() is Ok(true) although pack {p} came back damaged (asked before, while it was away, and again now on the same container)"));
+    }
     match (&check, case.damaged) {
+        (_, 0) if put_back_damaged.is_some() => {}
         (Ok(true), 0) => {}
         (Ok(true), d) => bad.push(format!(
             "Container::check() is Ok(true) although present pack {d} is damaged (missing subset {:b})",
